@@ -9,6 +9,8 @@ fn sweep<const F: u128>(name: &str, maxlen: usize) {
             let s: Vec<u8> = idx.iter().map(|&i| alpha[i]).collect();
             n += 1;
             if let Err(e) = hs::cmp_sep::<F>(&s) { bad += 1; if bad < 6 { println!("  {name} {:?}: {}", String::from_utf8_lossy(&s), e); } }
+            if let Err(e) = hs::cmp_sep_grammar::<F>(&s) { bad += 1; if bad < 12 { println!("  {name} {:?}: {}", String::from_utf8_lossy(&s), e); } }
+            if let Err(e) = hs::cmp_sep_partial_complete::<F>(&s) { bad += 1; if bad < 12 { println!("  {name} {:?}: {}", String::from_utf8_lossy(&s), e); } }
             let mut k = 0;
             while k < len { idx[k] += 1; if idx[k] < alpha.len() { break; } idx[k] = 0; k += 1; }
             if k == len { break; }
@@ -25,5 +27,5 @@ fn main() {
     let m: usize = std::env::args().nth(1).map(|s| s.parse().unwrap()).unwrap_or(6);
     sweep::<{ hs::F_I }>("F_I", m); sweep::<{ hs::F_IC }>("F_IC", m); sweep::<{ hs::F_L }>("F_L", m); sweep::<{ hs::F_T }>("F_T", m);
     sweep::<{ hs::F_ILT }>("F_ILT", m); sweep::<{ hs::F_ALL }>("F_ALL", m); sweep::<{ hs::F_INT_I }>("F_INT_I", m);
-    sweep::<{ hs::F_FRAC_I }>("F_FRAC_I", m); sweep::<{ hs::F_EXP_I }>("F_EXP_I", m); sweep::<{ hs::F_INT_ILTC }>("F_INT_ILTC", m);
+    sweep::<{ hs::F_FRAC_I }>("F_FRAC_I", m); sweep::<{ hs::F_LTC }>("F_LTC", m); sweep::<{ hs::F_ILC }>("F_ILC", m); sweep::<{ hs::F_ITC }>("F_ITC", m); sweep::<{ hs::F_LC }>("F_LC", m); sweep::<{ hs::F_TC }>("F_TC", m); sweep::<{ hs::F_IL }>("F_IL", m); sweep::<{ hs::F_IT }>("F_IT", m); sweep::<{ hs::F_LT }>("F_LT", m); sweep::<{ hs::F_EXP_I }>("F_EXP_I", m); sweep::<{ hs::F_INT_ILTC }>("F_INT_ILTC", m);
 }
